@@ -15,6 +15,7 @@ import (
 	"sort"
 	"strings"
 	"sync"
+	"sync/atomic"
 	"time"
 
 	"github.com/getlantern/bytemap"
@@ -189,7 +190,23 @@ func OpenAt(dir string, cfg Config, now time.Time) (*DB, error) {
 	return d, d.open()
 }
 
+var openCount int64
+
+// zenodb leaves the closing of the data files it reads (fileStore.iterate) and of WAL segments to os.File
+// finalizers, i.e. to the garbage collector; a worker that opens thousands of small databases collects rarely and
+// would run out of descriptors. Collect when many are open.
+func RelieveDescriptors() {
+	if atomic.AddInt64(&openCount, 1)%16 != 0 {
+		return
+	}
+	if ents, err := os.ReadDir("/proc/self/fd"); err == nil && len(ents) > 2000 {
+		runtime.GC()
+		runtime.GC() // finalizers queued by the first cycle run before the second completes
+	}
+}
+
 func (d *DB) open() error {
+	RelieveDescriptors()
 	openMx.Lock()
 	initMx.Lock()
 	initClock = d.Now
